@@ -1,81 +1,420 @@
+// codec is the conformance driver of C11 (specs/codec/Codec.tla): canonical encoding bound to the id.
+//
+//	codec -mode replay -cases cases.ndjson -out <dir>           model -> implementation: feed the byte strings TLC
+//	                                                            derived from the abstract encodings to the REAL decoders,
+//	                                                            compare verdicts, require exact re-encoding on accept
+//	codec -mode mutate -seed S -n N -out <dir>                  implementation -> model: seeded byte-level mutants of valid
+//	                                                            objects; logs (kind, bytes, verdict, re-encodes, size)
+//	                                                            as trace.ndjson for Trace_Codec.tla
+//	codec -mode idbind -tables tables.json -seed S -out <dir>   every field the specification's tables name as signed is
+//	                                                            perturbed on a real signed object; id / hash / roots
+//
+// Every mode writes <dir>/result.json. Exit 0 normally, 3 + "HARNESS-ERROR ..." for the driver's own trouble.
+// Panics of the code under test are recovered and reported as observations.
 package main
 
 import (
 	"bytes"
+	"encoding/hex"
+	"encoding/json"
+	"flag"
 	"fmt"
-	"math/big"
+	"os"
+	"path/filepath"
+	"runtime/debug"
 
-	"github.com/ethereum/go-ethereum/crypto"
 	"github.com/ethereum/go-ethereum/rlp"
+
 	"github.com/vechain/thor/v2/block"
 	"github.com/vechain/thor/v2/thor"
 	"github.com/vechain/thor/v2/tx"
 )
 
-func main() {
-	key, _ := crypto.HexToECDSA("0101010101010101010101010101010101010101010101010101010101010101")
-	addr := thor.BytesToAddress([]byte("to"))
-	t := tx.NewBuilder(tx.TypeLegacy).ChainTag(1).Gas(21000).Nonce(7).Clause(tx.NewClause(nil).WithData([]byte{1, 2})).Clause(tx.NewClause(&addr)).Build()
-	sig, _ := crypto.Sign(t.SigningHash().Bytes(), key)
-	t = t.WithSignature(sig)
-	enc, _ := t.MarshalBinary()
-	fmt.Printf("tx %x\n", enc)
-	// find clause[0].to = 0x80 : after list header(s). brute force: replace each 0x80 with 0xc0 and see which accepted
-	for i, b := range enc {
-		if b != 0x80 {
-			continue
+func fatal(format string, a ...any) {
+	fmt.Printf("HARNESS-ERROR "+format+"\n", a...)
+	os.Exit(3)
+}
+
+// Deviation is one observation on the real code that contradicts the specification or the property.
+type Deviation struct {
+	Sig   string `json:"sig"`
+	What  string `json:"what"`
+	ID    string `json:"id,omitempty"`
+	Kind  string `json:"kind,omitempty"`
+	Input string `json:"input,omitempty"` // hex
+	Reenc string `json:"reenc,omitempty"` // hex
+	Index int    `json:"index"`
+}
+
+// Obs is what the real code did with one input.
+type Obs struct {
+	Verdict  string   // accept | reject | panic
+	Err      string   // decode error / panic text
+	Stage    string   // where a panic happened
+	Reenc    []byte   // canonical re-encoding of the decoded object (same entry point)
+	Same     bool     // Reenc == input
+	Size     int64    // Size() as reported by the decoded object (tx, block), -1 otherwise
+	Problems []string // contradictions between accessors of an accepted object
+	Info     string
+}
+
+// guard runs f and converts a panic of the code under test into an observation.
+func guard(stage string, o *Obs, f func()) (ok bool) {
+	defer func() {
+		if r := recover(); r != nil {
+			o.Verdict = "panic"
+			o.Stage = stage
+			o.Err = fmt.Sprintf("%v\n%s", r, debug.Stack())
+			ok = false
 		}
-		m := bytes.Clone(enc)
-		m[i] = 0xc0
-		var d tx.Transaction
-		err := d.UnmarshalBinary(m)
+	}()
+	f()
+	return true
+}
+
+func txAccessors(t *tx.Transaction) {
+	_, _ = t.Origin()
+	_, _ = t.Delegator()
+	_, _ = t.IntrinsicGas()
+	_ = t.Size()
+	_ = t.ID()
+	_ = t.Hash()
+	_ = t.SigningHash()
+	_ = t.UnprovedWork()
+	_ = t.EnforceSignatureLowS()
+	_ = t.TestFeatures(tx.DelegationFeature)
+	_ = t.IsExpired(10)
+	_ = t.Clauses()
+	_ = t.DependsOn()
+	_ = t.Signature()
+	_ = t.MaxFeePerGas()
+	_ = t.MaxPriorityFeePerGas()
+	_ = t.GasPriceCoef()
+	_ = t.String()
+}
+
+func headerAccessors(h *block.Header) {
+	_, _ = h.Signer()
+	_, _ = h.Beta()
+	_ = h.ID()
+	_ = h.SigningHash()
+	_ = h.Number()
+	_ = h.BaseFee()
+	_ = h.Alpha()
+	_ = h.COM()
+	_ = h.TxsFeatures()
+	_ = h.String()
+}
+
+// checkTx: contradictions between the accessors of an accepted transaction. canonical = MarshalBinary().
+func checkTx(t *tx.Transaction, o *Obs) {
+	canon, err := t.MarshalBinary()
+	if err != nil {
+		o.Problems = append(o.Problems, "marshal-error")
+		return
+	}
+	o.Size = int64(t.Size())
+	if o.Size != int64(len(canon)) {
+		o.Problems = append(o.Problems, fmt.Sprintf("size-mismatch(Size()=%d,len(canonical)=%d)", o.Size, len(canon)))
+	}
+	// the same content in a fresh object (no decode-time cache) must report the same size
+	fresh := t.WithSignature(t.Signature())
+	if int64(fresh.Size()) != int64(len(canon)) {
+		o.Problems = append(o.Problems, fmt.Sprintf("size-mismatch(fresh Size()=%d,len(canonical)=%d)", fresh.Size(), len(canon)))
+	}
+	if t.Hash() != thor.Blake2b(canon) {
+		o.Problems = append(o.Problems, "hash-mismatch(Hash()!=blake2b(canonical))")
+	}
+	id1, h1 := t.ID(), t.Hash()
+	var again tx.Transaction
+	if err := again.UnmarshalBinary(canon); err != nil {
+		o.Problems = append(o.Problems, "canonical-rejected("+err.Error()+")")
+		return
+	}
+	if again.ID() != id1 || t.ID() != id1 || fresh.ID() != id1 {
+		o.Problems = append(o.Problems, "id-unstable")
+	}
+	if again.Hash() != h1 || fresh.Hash() != h1 {
+		o.Problems = append(o.Problems, "hash-unstable")
+	}
+	txAccessors(t)
+	txAccessors(fresh)
+}
+
+func checkHeader(h *block.Header, canon []byte, o *Obs) {
+	id1 := h.ID()
+	var again block.Header
+	if err := rlp.DecodeBytes(canon, &again); err != nil {
+		o.Problems = append(o.Problems, "canonical-rejected("+err.Error()+")")
+		return
+	}
+	if again.ID() != id1 || h.ID() != id1 {
+		o.Problems = append(o.Problems, "id-unstable")
+	}
+	if again.SigningHash() != h.SigningHash() {
+		o.Problems = append(o.Problems, "signinghash-unstable")
+	}
+	headerAccessors(h)
+}
+
+// observe decodes x through the entry point named by kind with the real types and collects what the property talks about.
+func observe(kind string, x []byte) (o Obs) {
+	o.Size = -1
+	o.Verdict = "reject"
+	in := bytes.Clone(x) // the decoders must not be able to alias our copy
+	switch kind {
+	case "txbin":
+		var t tx.Transaction
+		var err error
+		if !guard("UnmarshalBinary", &o, func() { err = t.UnmarshalBinary(in) }) {
+			return
+		}
 		if err != nil {
-			fmt.Println(i, "reject", err)
-			continue
+			o.Err = err.Error()
+			return
 		}
-		re, _ := d.MarshalBinary()
-		fmt.Println(i, "ACCEPT same=", bytes.Equal(re, m), "id same", d.ID() == t.ID(), "hash same", d.Hash() == t.Hash(), "size", d.Size(), len(re))
+		o.Verdict = "accept"
+		guard("accessors", &o, func() {
+			o.Reenc, _ = t.MarshalBinary()
+			checkTx(&t, &o)
+		})
+	case "txrlp":
+		var t tx.Transaction
+		var err error
+		if !guard("DecodeRLP", &o, func() { err = rlp.DecodeBytes(in, &t) }) {
+			return
+		}
+		if err != nil {
+			o.Err = err.Error()
+			return
+		}
+		o.Verdict = "accept"
+		guard("accessors", &o, func() {
+			o.Reenc, _ = rlp.EncodeToBytes(&t)
+			checkTx(&t, &o)
+			// inside a list, as in a block body
+			var l tx.Transactions
+			lst, _ := rlp.EncodeToBytes([]rlp.RawValue{in})
+			if err := rlp.DecodeBytes(lst, &l); err != nil || len(l) != 1 || l[0].ID() != t.ID() {
+				o.Problems = append(o.Problems, "list-decode-disagrees")
+			}
+			_ = l.RootHash()
+		})
+	case "header":
+		var h block.Header
+		var err error
+		if !guard("DecodeRLP", &o, func() { err = rlp.DecodeBytes(in, &h) }) {
+			return
+		}
+		if err != nil {
+			o.Err = err.Error()
+			return
+		}
+		o.Verdict = "accept"
+		guard("accessors", &o, func() {
+			o.Reenc, _ = rlp.EncodeToBytes(&h)
+			checkHeader(&h, o.Reenc, &o)
+		})
+	case "block":
+		b := new(block.Block)
+		var err, err2 error
+		var b2 *block.Block
+		if !guard("DecodeRLP", &o, func() { err = rlp.DecodeBytes(in, b) }) {
+			return
+		}
+		if !guard("DecodeRawBlock", &o, func() {
+			var rb *block.RawBlock
+			rb, err2 = block.DecodeRawBlock(bytes.Clone(x))
+			if err2 == nil {
+				_ = rb.Header().ID()
+				b2, err2 = rb.Decode()
+			}
+		}) {
+			return
+		}
+		if (err == nil) != (err2 == nil) {
+			o.Problems = append(o.Problems, fmt.Sprintf("rawblock-disagrees(Block:%v,RawBlock:%v)", err, err2))
+		}
+		if err != nil {
+			o.Err = err.Error()
+			if err2 == nil {
+				o.Verdict = "accept" // one of the two production entry points takes it
+				o.Info = "only RawBlock accepted"
+				b = b2
+			} else {
+				return
+			}
+		}
+		o.Verdict = "accept"
+		guard("accessors", &o, func() {
+			o.Reenc, _ = rlp.EncodeToBytes(b)
+			o.Size = int64(b.Size())
+			if o.Size != int64(len(o.Reenc)) {
+				o.Problems = append(o.Problems, fmt.Sprintf("size-mismatch(Size()=%d,len(canonical)=%d)", o.Size, len(o.Reenc)))
+			}
+			fresh := block.Compose(b.Header(), b.Transactions())
+			if int64(fresh.Size()) != int64(len(o.Reenc)) {
+				o.Problems = append(o.Problems, fmt.Sprintf("size-mismatch(fresh Size()=%d,len(canonical)=%d)", fresh.Size(), len(o.Reenc)))
+			}
+			if b2 != nil {
+				re2, _ := rlp.EncodeToBytes(b2)
+				if !bytes.Equal(re2, o.Reenc) || b2.Size() != b.Size() || b2.Header().ID() != b.Header().ID() {
+					o.Problems = append(o.Problems, "rawblock-disagrees(content)")
+				}
+			}
+			hre, _ := rlp.EncodeToBytes(b.Header())
+			checkHeader(b.Header(), hre, &o)
+			for _, t := range b.Transactions() {
+				txAccessors(t)
+				if c, err := t.MarshalBinary(); err != nil || int64(t.Size()) != int64(len(c)) {
+					o.Problems = append(o.Problems, fmt.Sprintf("size-mismatch(tx in block Size()=%d,len(canonical)=%d)", t.Size(), len(c)))
+				}
+			}
+			_ = b.Transactions().RootHash()
+			_ = b.String()
+		})
+	case "rcbin", "rcrlp":
+		var r tx.Receipt
+		var err error
+		if !guard("decode", &o, func() {
+			if kind == "rcbin" {
+				err = r.UnmarshalBinary(in)
+			} else {
+				err = rlp.DecodeBytes(in, &r)
+			}
+		}) {
+			return
+		}
+		if err != nil {
+			o.Err = err.Error()
+			return
+		}
+		o.Verdict = "accept"
+		guard("accessors", &o, func() {
+			if kind == "rcbin" {
+				o.Reenc, _ = r.MarshalBinary()
+			} else {
+				o.Reenc, _ = rlp.EncodeToBytes(&r)
+			}
+			_ = tx.Receipts{&r}.RootHash()
+			var again tx.Receipt
+			m, _ := r.MarshalBinary()
+			if err := again.UnmarshalBinary(m); err != nil {
+				o.Problems = append(o.Problems, "canonical-rejected("+err.Error()+")")
+			} else if m2, _ := again.MarshalBinary(); !bytes.Equal(m, m2) {
+				o.Problems = append(o.Problems, "marshal-unstable")
+			}
+		})
+	default:
+		fatal("unknown kind %q", kind)
 	}
-	// header
-	var sigc [146]byte
-	hb := new(block.Builder).ParentID(thor.Bytes32{0, 0, 0, 5}).Timestamp(10).GasLimit(1000).BaseFee(big.NewInt(100)).Alpha([]byte{1}).Build()
-	s65, _ := crypto.Sign(hb.Header().SigningHash().Bytes(), key)
-	copy(sigc[:], s65)
-	b1 := hb.WithSignature(sigc[:])
-	sigc[100] ^= 1
-	b2 := hb.WithSignature(sigc[:])
-	e1, _ := rlp.EncodeToBytes(b1.Header())
-	e2, _ := rlp.EncodeToBytes(b2.Header())
-	fmt.Println("header proof flip: bytes same", bytes.Equal(e1, e2), "id same", b1.Header().ID() == b2.Header().ID())
-	// malleable ecdsa
-	n := crypto.S256().Params().N
-	sv := new(big.Int).SetBytes(s65[32:64])
-	sv.Sub(n, sv)
-	var s2 [146]byte
-	copy(s2[:], sigc[:])
-	s2[100] ^= 1
-	sv.FillBytes(s2[32:64])
-	s2[64] ^= 1
-	b3 := hb.WithSignature(s2[:])
-	fmt.Println("header high-s: id same", b1.Header().ID() == b3.Header().ID())
-	// F5
-	var items []rlp.RawValue
-	content, _, _ := rlp.SplitList(e1)
-	for len(content) > 0 {
-		_, _, rest, _ := rlp.Split(content)
-		items = append(items, content[:len(content)-len(rest)])
-		content = rest
+	if o.Verdict == "accept" {
+		o.Same = bytes.Equal(o.Reenc, x)
 	}
-	pair, _ := rlp.EncodeToBytes([]any{b1.Header().TxsRoot(), uint(0)})
-	items[6] = pair
-	f5, _ := rlp.EncodeToBytes(items)
-	var h block.Header
-	err := rlp.DecodeBytes(f5, &h)
-	re, _ := rlp.EncodeToBytes(&h)
-	fmt.Println("F5 err", err, len(f5), len(re), "id same", h.ID() == b1.Header().ID())
-	blk, _ := rlp.EncodeToBytes([]any{rlp.RawValue(f5), []any{}})
-	var bb block.Block
-	err = rlp.DecodeBytes(blk, &bb)
-	re, _ = rlp.EncodeToBytes(&bb)
-	fmt.Println("F5 block err", err, len(blk), len(re), bb.Size())
+	return
+}
+
+// problemClass strips the numbers from a problem text so that signatures stay stable.
+func problemClass(p string) string {
+	if i := bytes.IndexByte([]byte(p), '('); i >= 0 {
+		return p[:i]
+	}
+	return p
+}
+
+// judge compares one observation with the specification's verdict (modelOK) and returns the deviations.
+// where: "<site>=<form>" of the case (replay) or "" (mutants: the place is found by diffing).
+func judge(kind string, x []byte, modelKnown, modelOK bool, o Obs, where string) (devs []Deviation) {
+	add := func(sig, what string) {
+		devs = append(devs, Deviation{Sig: sig, What: what, Kind: kind, Input: hex.EncodeToString(x), Reenc: hex.EncodeToString(o.Reenc)})
+	}
+	switch {
+	case o.Verdict == "panic":
+		first := o.Err
+		if i := bytes.IndexByte([]byte(first), '\n'); i >= 0 {
+			first = first[:i]
+		}
+		add("panic:"+kind+":"+o.Stage, "real code panicked in "+o.Stage+": "+first)
+		return
+	case o.Verdict == "accept" && !o.Same:
+		// the property itself: accepted, but does not re-encode to the same bytes
+		place := diagnose(kind, x, o.Reenc)
+		what := fmt.Sprintf("%s accepted a %d-byte input that re-encodes to %d different bytes (first difference at %s)", kind, len(x), len(o.Reenc), place)
+		if len(o.Problems) > 0 {
+			what += fmt.Sprintf("; also %v", o.Problems)
+		}
+		add("noncanonical-accepted:"+place, what)
+		return
+	}
+	if modelKnown {
+		if modelOK && o.Verdict == "reject" {
+			add("verdict-mismatch:"+kind+":"+where+":model=accept,real=reject", "specification accepts, real decoder rejects: "+o.Err)
+		}
+		if !modelOK && o.Verdict == "accept" {
+			add("verdict-mismatch:"+kind+":"+where+":model=reject,real=accept", "specification rejects, real decoder accepts (and re-encodes identically)")
+		}
+	}
+	if o.Verdict == "accept" {
+		for _, p := range o.Problems {
+			add(problemClass(p)+":"+kind, p+" on accepted "+kind+" ("+where+")")
+		}
+	}
+	return
+}
+
+type result struct {
+	Mode        string         `json:"mode"`
+	Evaluations int            `json:"evaluations"`
+	Accepted    int            `json:"accepted"`
+	Rejected    int            `json:"rejected"`
+	Distinct    int            `json:"distinct"`
+	Nontrivial  int            `json:"nontrivial"`
+	Deviations  []Deviation    `json:"deviations"`
+	Samples     []any          `json:"samples"`
+	Extra       map[string]any `json:"extra,omitempty"`
+}
+
+func writeResult(out string, r *result) {
+	if r.Deviations == nil {
+		r.Deviations = []Deviation{}
+	}
+	b, _ := json.MarshalIndent(r, "", " ")
+	if err := os.WriteFile(filepath.Join(out, "result.json"), b, 0o644); err != nil {
+		fatal("write result: %v", err)
+	}
+	fmt.Printf("{\"mode\":%q,\"evaluations\":%d,\"accepted\":%d,\"rejected\":%d,\"deviations\":%d}\n", r.Mode, r.Evaluations, r.Accepted, r.Rejected, len(r.Deviations))
+}
+
+func main() {
+	mode := flag.String("mode", "", "replay | mutate | idbind | one")
+	cases := flag.String("cases", "", "cases.ndjson exported by TLC (replay)")
+	tables := flag.String("tables", "", "tables.json exported by TLC (idbind)")
+	out := flag.String("out", ".", "output directory")
+	seed := flag.Int64("seed", 1, "seed")
+	n := flag.Int("n", 1000, "number of mutants")
+	kind := flag.String("kind", "", "entry point (one)")
+	hexin := flag.String("hex", "", "input bytes (one)")
+	flag.Parse()
+	if err := os.MkdirAll(*out, 0o755); err != nil {
+		fatal("mkdir: %v", err)
+	}
+	switch *mode {
+	case "replay":
+		runReplay(*cases, *out)
+	case "mutate":
+		runMutate(*seed, *n, *out)
+	case "idbind":
+		runIDBind(*tables, *seed, *out)
+	case "one":
+		x, err := hex.DecodeString(*hexin)
+		if err != nil {
+			fatal("hex: %v", err)
+		}
+		o := observe(*kind, x)
+		r := &result{Mode: "one", Evaluations: 1, Deviations: judge(*kind, x, false, false, o, "")}
+		r.Samples = []any{map[string]any{"kind": *kind, "verdict": o.Verdict, "err": o.Err, "same": o.Same, "size": o.Size, "reenc": hex.EncodeToString(o.Reenc)}}
+		writeResult(*out, r)
+	default:
+		fatal("unknown mode %q", *mode)
+	}
 }
